@@ -64,7 +64,11 @@ RandOps(s) ==
     IF ~s.started THEN
         (IF Regs(s) = {} \/ (s.nreg < 4 /\ Rnd(1..3, 16) # 1) THEN RegisterOps(s) ELSE {StartOp})
     ELSE IF s.pend # <<>> THEN
-        (IF Len(s.pend) >= 3 \/ Rnd(1..3, 17) # 1 THEN {SyncOp} ELSE OrElse(SetOps(s), {SyncOp}))
+        (IF Len(s.pend) >= 3 THEN {SyncOp}
+         ELSE LET f == Bag(<<"sync", "sync", "sync", "set", "set", "wait">>, 17) IN
+              IF f = "sync" \/ (f = "wait" /\ hist[Len(hist)].op = "wait") THEN {SyncOp}
+              ELSE IF f = "wait" THEN {Op("wait", 0, 0, Bag(<<40, 95, 105, 130, 210>>, 19), FALSE, "", 0, 0)}
+              ELSE OrElse(SetOps(s), {SyncOp}))
     ELSE LET f == Bag(<<"set", "set", "set", "set", "set", "fail", "fail", "resolve", "sfail", "sfail", "register",
                         IF fresh THEN "set" ELSE "sync", IF fresh THEN "fail" ELSE "sync", IF fresh THEN "sfail" ELSE "sync">>, 18) IN
          CASE f = "set" -> OrElse(SetOps(s), FailOps(s)) [] f = "fail" -> FailOps(s) [] f = "resolve" -> ResolveOps(s)
@@ -94,7 +98,10 @@ DoOp == /\ ~done /\ Len(hist) < MaxLen
 
 Finish == /\ Emit /\ Len(hist) = MaxLen /\ ~done
           /\ done' = TRUE
-          /\ PrintT(<<"@@", ToJson([n |-> st.n, deps |-> st.deps, steps |-> hist])>>)
+          /\ PrintT(<<"@@", ToJson([n |-> st.n, deps |-> st.deps, steps |-> hist,
+                                    \* in a quarter of the scripts the start routine of one module takes longer than the
+                                    \* debounce interval (no meaning for the model: management passes overlap later handlers)
+                                    slow |-> IF Rnd(1..4, 20) = 1 THEN {Rnd(2..st.n, 21)} ELSE {}])>>)
           /\ UNCHANGED <<st, hist, eversf>>
 
 Next == DoOp \/ Finish
